@@ -261,7 +261,7 @@ func (e *Exec) mapLookup(st *State, fr *Frame, in *ssa.Lookup) {
 	m, ok := x.(VMap)
 	if !ok {
 		e.unsupported(fmt.Sprintf("Lookup on %T", x))
-		fr.Vals[in] = e.materialize(e.fresh("lookup", BoolSort).S, in.Type())
+		fr.Vals[in] = e.materialize(e.freshName("lookup"), in.Type())
 		return
 	}
 	mt := in.X.Type().Underlying().(*types.Map)
@@ -277,7 +277,7 @@ func (e *Exec) mapLookup(st *State, fr *Frame, in *ssa.Lookup) {
 	present, vals, _, ok := e.mapParts(st, m)
 	kt, ok1 := scalarTerm(e.val(st, fr, in.Index))
 	if !ok || !ok1 {
-		fr.Vals[in] = e.materialize(e.fresh("lookup", BoolSort).S, in.Type())
+		fr.Vals[in] = e.materialize(e.freshName("lookup"), in.Type())
 		return
 	}
 	has := And(Not(m.Nil), Select(present, kt))
@@ -285,7 +285,7 @@ func (e *Exec) mapLookup(st *State, fr *Frame, in *ssa.Lookup) {
 	if _, scalar := elemSort(mt.Elem()); scalar {
 		v = e.wrapScalar(Ite(has, Select(vals, kt), zeroOf(*vals.Sort.Elem)), mt.Elem())
 	} else {
-		v = e.materialize(e.fresh("mapelem", BoolSort).S, mt.Elem())
+		v = e.materialize(e.freshName("mapelem"), mt.Elem())
 	}
 	if in.CommaOk {
 		fr.Vals[in] = VTuple{E: []Value{v, VBool{has}}}
@@ -325,7 +325,7 @@ func (e *Exec) rangeNext(st *State, fr *Frame, in *ssa.Next) {
 	}
 	present, vals, _, ok := e.mapParts(st, it.M)
 	if !ok {
-		fr.Vals[in] = VTuple{E: []Value{VBool{e.fresh("iterok", BoolSort)}, e.materialize(e.fresh("k", BoolSort).S, tt.At(1).Type()), e.materialize(e.fresh("v", BoolSort).S, tt.At(2).Type())}}
+		fr.Vals[in] = VTuple{E: []Value{VBool{e.fresh("iterok", BoolSort)}, e.materialize(e.freshName("k"), tt.At(1).Type()), e.materialize(e.freshName("v"), tt.At(2).Type())}}
 		return
 	}
 	visited := st.Ghost[it.ID+":visited"].(VTerm).T
@@ -343,7 +343,7 @@ func (e *Exec) rangeNext(st *State, fr *Frame, in *ssa.Next) {
 	if _, scalar := elemSort(mt.Elem()); scalar {
 		vv = e.wrapScalar(Select(vals, k), mt.Elem())
 	} else {
-		vv = e.materialize(e.fresh("mapelem", BoolSort).S, mt.Elem())
+		vv = e.materialize(e.freshName("mapelem"), mt.Elem())
 	}
 	if isInvalidType(tt.At(1).Type()) {
 		kv = nil
@@ -366,7 +366,7 @@ func (e *Exec) selectOp(st *State, fr *Frame, in *ssa.Select) {
 	mk := func(idx int) Value {
 		vt := VTuple{E: []Value{VInt{T: i64(int64(idx)), Signed: true}, VBool{e.fresh("recvok", BoolSort)}}}
 		for i := 2; i < tt.Len(); i++ {
-			vt.E = append(vt.E, e.materialize(e.fresh("recv", BoolSort).S, tt.At(i).Type()))
+			vt.E = append(vt.E, e.materialize(e.freshName("recv"), tt.At(i).Type()))
 		}
 		return vt
 	}
